@@ -105,12 +105,14 @@ func (a *arena) release(g *gateCall, r gateReply) {
 // gatedSink is the sink of the deduplicating replicator: FindMissing blocks in the arena.
 type gatedSink struct{ a *arena }
 
+// Get / GetFromComposite are the read-back of ReplicateSingle / ReplicateComposite; they always
+// succeed, so that the caller's result is the result of the replication protocol itself.
 func (s gatedSink) Get(ctx context.Context, d digest.Digest) buffer.Buffer {
-	panic("gatedSink.Get: ReplicateMultiple must not read the sink")
+	return buffer.NewValidatedBufferFromByteSlice([]byte("v1"))
 }
 
 func (s gatedSink) GetFromComposite(ctx context.Context, p, c digest.Digest, sl slicing.BlobSlicer) buffer.Buffer {
-	panic("gatedSink.GetFromComposite")
+	return buffer.NewValidatedBufferFromByteSlice([]byte("v1"))
 }
 
 func (s gatedSink) Put(ctx context.Context, d digest.Digest, b buffer.Buffer) error {
@@ -188,7 +190,25 @@ type world struct {
 	delivered map[int]int // fault id -> caller it was handed to
 }
 
-func (w *world) spawn(keys []int, cancelled bool) *caller {
+// entry returns the call a caller makes: kind "m" ReplicateMultiple(keys), "s" ReplicateSingle and
+// "c" ReplicateComposite of keys[0] (the returned buffer is consumed).
+func (w *world) entry(kind string, keys []int) func(ctx context.Context) error {
+	switch kind {
+	case "s":
+		return func(ctx context.Context) error {
+			_, err := w.repl.ReplicateSingle(ctx, digestOf(keys[0])).ToByteSlice(1000)
+			return err
+		}
+	case "c":
+		return func(ctx context.Context) error {
+			_, err := w.repl.ReplicateComposite(ctx, digestOf(keys[0]), digestOf(keys[0]+100), nil).ToByteSlice(1000)
+			return err
+		}
+	}
+	return func(ctx context.Context) error { return w.repl.ReplicateMultiple(ctx, setOf(keys)) }
+}
+
+func (w *world) spawn(kind string, keys []int, cancelled bool) *caller {
 	c := &caller{id: len(w.callers), keys: keys, start: w.phase}
 	ctx, cancel := context.WithCancel(context.WithValue(context.Background(), callerKey{}, c.id))
 	c.ctx, c.cancel = ctx, cancel
@@ -197,8 +217,9 @@ func (w *world) spawn(keys []int, cancelled bool) *caller {
 		c.cancelled = true
 	}
 	w.callers = append(w.callers, c)
+	call := w.entry(kind, keys)
 	go func() {
-		err := w.repl.ReplicateMultiple(ctx, setOf(keys))
+		err := call(ctx)
 		w.mu.Lock()
 		c.done, c.result = true, err
 		w.mu.Unlock()
